@@ -22,7 +22,8 @@ props_for() {
   echo $ps | tr ' ' '\n' | sort -u | tr '\n' ' '
 }
 bad=0
-for d in "$1"/r*.diff; do
+D=$(cd "$1" && pwd)
+for d in "$D"/r*.diff; do
   if ! git -C /repo apply --check "$d" 2>/dev/null; then echo "$(basename $d): does not apply"; continue; fi
   git -C /repo apply "$d"
   ps=$(props_for "$d")
